@@ -270,8 +270,14 @@ def bare(cell):
     slot, fn = params()[name]
     apply_cfg(cfg)
     unit = getattr(pb.PreferredUnits, slot)
+    if v == 'nominal':
+        # the bare number that means the same physical magnitude as 2.5 default units, in whatever unit the slot is set to (every unit of the slot's
+        # dimension gets its turn: the coercion of a bare number goes through that unit's own constructor)
+        v = pb.Unit[DEFAULT[slot]](2.5) >> unit
+    # the explicit quantity is built with the dimension class itself, not through Unit.__call__ (which is the very path a bare number takes)
+    cls = getattr(pb, R.DIM_OF[unit.name].capitalize())
     try:
-        e = fn(unit(v))
+        e = fn(cls(v, unit))
     except Exception as ex:  # explicit form not accepted -> vacuous
         apply_cfg('default')
         pb.reset_globals()
@@ -343,5 +349,10 @@ def plan(tier):
              'danger.at_range', 'danger.target_height', 'danger.look_angle', 'Sight.scale_factor', 'Sight.h_click', 'Sight.v_click', 'Sight.target_distance',
              'set_global_step']
     bs = [[n, v, c] for n in names for v in VALUES if not (v == 0 and n in NO_ZERO) for c in ('default', 'metric', 'scr1')]
+    slot_of = {'Atmo.altitude': 'distance', 'Atmo.pressure': 'pressure', 'Atmo.temperature': 'temperature', 'Wind.velocity': 'velocity', 'Wind.direction_from': 'angular',
+               'Weapon.sight_height': 'sight_height', 'Weapon.twist': 'twist', 'Weapon.zero_elevation': 'angular', 'DragModel.weight': 'weight', 'DragModel.diameter': 'diameter',
+               'DragModel.length': 'length', 'fire.range': 'distance', 'danger.target_height': 'target_height', 'Sight.h_click': 'adjustment', 'Ammo.mv': 'velocity',
+               'Ammo.powder_temp': 'temperature', 'Shot.look_angle': 'angular'}
+    bs += [[n, 'nominal', {sl: un}] for n, sl in slot_of.items() for un in R.DIMENSIONS[SLOT_DIM[sl]] if un != DEFAULT[sl]]
     hm = [[a, b, c] for a in NAMED for b in NAMED if a != b for c in ('default', 'scr2')]
     return [('config', cfgs), ('hist', hs), ('bare', bs), ('hist_mixed', hm)]
